@@ -156,6 +156,14 @@ def run(ctx: Ctx):
         if k % 2 == 1:      # the file does not import HasRepr / external yet: the session has to add the import where the module can use it
             p["source"] = p["source"].replace("from inline_snapshot import snapshot, Is, HasRepr, external, outsource", "from inline_snapshot import snapshot, Is, outsource")
     sp += [{"source": s} for s in IMPORT_PROJECTS]
+    # numbers whose repr is a NAME (inf, nan are no literals), at any depth; objects whose repr parses as a statement but is no expression
+    sp += [{"source": s} for s in (
+        'from inline_snapshot import snapshot\n\n\ndef test_a():\n    assert float("inf") == snapshot()\n    assert [1.5, float("-inf")] == snapshot()\n    assert {"k": (float("inf"), 2)} == snapshot()\n'
+        '    assert float("inf") <= snapshot()\n    assert float("-inf") in snapshot()\n    assert float("inf") == snapshot()["limit"]\n',
+        'from inline_snapshot import snapshot\n\n\nclass R:\n    def __init__(self, text):\n        self.text = text\n\n    def __repr__(self):\n        return self.text\n\n'
+        '    def __eq__(self, o):\n        return o.text == self.text if isinstance(o, R) else NotImplemented\n\n\n'
+        'def test_a():\n    assert R("x=1") == snapshot()\n    assert [R("pass"), R("")] == snapshot()\n    assert R("import os") == snapshot()\n    assert R("a = b = 2") in snapshot()\n',
+    )]
     for p, o in zip(sp, tmap(run_session, sp)):
         ctx.count(("session", p["source"]), True)
         if o["rc1"] not in (0, 1):
